@@ -50,6 +50,21 @@ theorem cnt_of_lookup : ∀ (l : List (Nat × Nat)) (ing page : Nat), lookup l i
     · have := cnt_of_lookup rest ing page h
       simp only [cnt]; omega
 
+theorem cnt_removeKey_lookup : ∀ (mr : List (Nat × Nat)) (ing page q : Nat), lookup mr ing = some page →
+    cnt q (removeKey mr ing) + (if page = q then 1 else 0) ≤ cnt q mr
+  | [], _, _, _, hl => by simp [lookup] at hl
+  | (k, v) :: mr, ing, page, q, hl => by
+    simp only [lookup] at hl
+    simp only [removeKey]
+    split at hl
+    · next hk =>
+      simp only [Option.some.injEq] at hl; subst hl
+      have := cnt_removeKey_le mr ing q
+      simp only [hk, if_true, cnt]; omega
+    · next hk =>
+      have := cnt_removeKey_lookup mr ing page q hl
+      simp only [hk, if_false, cnt]; omega
+
 theorem cnt_drain : ∀ (order : List Nat) (nf mr nf' : List (Nat × Nat)) (q : Nat),
     drain nf mr order = some nf' → cnt q nf' ≤ cnt q nf + cnt q mr
   | [], nf, mr, nf', q, h => by
@@ -544,6 +559,31 @@ theorem ainv_dropHandle (s : State) (h : Nat) (order : List Nat) (hinv : AInv s)
       exact Nat.le_zero.1 h2
     · exact pcOk_set s s.pages h _ hown hget True.intro (fun _ _ _ _ _ _ => rfl)
 
+theorem ainv_release (s : State) (h ing page : Nat) (hinv : AInv s)
+    (hpre : pre s (.release h ing page) = true) : AInv (apply s (.release h ing page)) := by
+  obtain ⟨hown, hdata⟩ := hinv
+  simp only [pre, Bool.and_eq_true, beq_iff_eq] at hpre
+  obtain ⟨⟨hlive, hpc⟩, hlk⟩ := hpre
+  have hget := getH_live s h hlive
+  have key : ∀ q, occ (apply s (.release h ing page)) q ≤ occ s q := by
+    intro q
+    show cnt q ((ing, page) :: s.nonFull) +
+      occH q (s.handles.set h (Handle.mk (getH s h).live (removeKey (getH s h).mostRecent ing) (getH s h).pc)) ≤
+      cnt q s.nonFull + occH q s.handles
+    have h1 := cnt_removeKey_lookup (getH s h).mostRecent ing page q hlk
+    have h2 := occH_set q s.handles h (getH s h)
+      (Handle.mk (getH s h).live (removeKey (getH s h).mostRecent ing) (getH s h).pc) hget
+    simp only at h2
+    simp only [cnt]
+    omega
+  refine ⟨⟨fun q => Nat.le_trans (key q) (hown.single q), ?_, ?_⟩, hdata⟩
+  · intro q hq
+    have h1 := hown.dom q hq
+    have h2 := key q
+    rw [h1] at h2
+    exact Nat.le_zero.1 h2
+  · exact pcOk_set s s.pages h _ hown hget (by simp only [PcOk, hpc]) (fun _ _ _ _ _ _ => rfl)
+
 theorem ainv_cloneHandle (s : State) (parent : Nat) (hinv : AInv s) :
     AInv (apply s (.cloneHandle parent)) := by
   obtain ⟨hown, hdata⟩ := hinv
@@ -582,6 +622,7 @@ theorem ainv_step (s s' : State) (l : Label) (hinv : AInv s) (hs : step s l = so
   | load h page n => exact ainv_load s h page n hinv hpre
   | write h page slot v => exact ainv_write s h page slot v hinv hpre
   | store h page n => exact ainv_store s h page n hinv hpre
+  | release h ing page => exact ainv_release s h ing page hinv hpre
   | dropHandle h order => exact ainv_dropHandle s h order hinv hpre
   | cloneHandle parent => exact ainv_cloneHandle s parent hinv
 
@@ -659,6 +700,7 @@ theorem handed_mono_step (s s' : State) (l : Label) (hs : step s l = some s') :
     split
     · exact List.mem_cons_of_mem _ hx
     · exact hx
+  | release h ing page => exact hx
   | dropHandle h order =>
     simp only [apply]; split <;> exact hx
   | cloneHandle parent => exact hx
